@@ -100,6 +100,11 @@ where
     /// Temporary lock when snapshot is generated (to prevent concurrent snapshot generation)
     snapshot_lock: RwLock<()>,
 
+    /// (first index, term) of every term seen by apply_chunk since start, oldest first.
+    /// create_snapshot labels the snapshot with an entry below last_applied and the state
+    /// machines do not keep the term of each index.
+    applied_term_starts: std::sync::Mutex<Vec<(u64, u64)>>,
+
     /// Watch channel to notify when last_applied advances
     /// Used for linearizable reads to wait until state machine catches up with commit_index
     applied_notify_tx: tokio::sync::watch::Sender<u64>,
@@ -227,6 +232,18 @@ where
 
         let sm = self.state_machine.clone();
 
+        {
+            let mut starts = self.applied_term_starts.lock().unwrap();
+            for entry in &chunk {
+                if starts
+                    .last()
+                    .is_none_or(|(first, term)| entry.index > *first && *term != entry.term)
+                {
+                    starts.push((entry.index, entry.term));
+                }
+            }
+        }
+
         // Decode proto bytes → ApplyEntry exactly once here.
         // State machine receives clean Rust types; never touches proto or wire format.
         let apply_entries = decode_entries(chunk)?;
@@ -350,6 +367,12 @@ where
             .apply_snapshot_from_file(&final_metadata, temp_dir.path().to_path_buf())
             .await?;
 
+        // The installed state replaces what was applied before: only its boundary is known now
+        if let Some(last_included) = final_metadata.last_included {
+            *self.applied_term_starts.lock().unwrap() =
+                vec![(last_included.index, last_included.term)];
+        }
+
         info!("Snapshot stream successfully received and applied");
         Ok(())
     }
@@ -396,18 +419,17 @@ where
         let raw_last_included = self.state_machine.last_applied();
 
         // Apply retention policy
-        let last_included = LogId {
-            index: raw_last_included
-                .index
-                .saturating_sub(self.snapshot_config.retained_log_entries),
-            term: self
-                .state_machine
-                .entry_term(
-                    raw_last_included
-                        .index
-                        .saturating_sub(self.snapshot_config.retained_log_entries),
-                )
-                .unwrap_or(raw_last_included.term),
+        let wanted_index = raw_last_included
+            .index
+            .saturating_sub(self.snapshot_config.retained_log_entries);
+        // The retained entries may belong to an older term than last_applied, and the purge
+        // boundary built from this label is what AppendEntries carries as prev_log_term.
+        let last_included = match self.state_machine.entry_term(wanted_index) {
+            Some(term) => LogId {
+                index: wanted_index,
+                term,
+            },
+            None => self.label_with_known_term(wanted_index, raw_last_included),
         };
 
         let temp_path = self.path_mgr.temp_work_path(&last_included);
@@ -797,6 +819,7 @@ where
             snapshot_config,
 
             snapshot_lock: RwLock::new(()),
+            applied_term_starts: std::sync::Mutex::new(Vec::new()),
             snapshot_in_progress: AtomicBool::new(false),
             applied_notify_tx,
             applied_notify_rx,
@@ -805,6 +828,34 @@ where
             #[cfg(feature = "watch")]
             prev_kv_watcher_count,
         }
+    }
+
+    /// Snapshot label at `wanted_index` with the term of that entry. Right after a restart or
+    /// a snapshot install the entries below the first one applied since are unknown: the label
+    /// then moves up to the oldest entry whose term is known (fewer entries are retained once).
+    fn label_with_known_term(
+        &self,
+        wanted_index: u64,
+        last_applied: LogId,
+    ) -> LogId {
+        let starts = self.applied_term_starts.lock().unwrap();
+        let Some((oldest_known, _)) = starts.first().copied() else {
+            return LogId {
+                index: wanted_index,
+                term: last_applied.term,
+            };
+        };
+        let index = wanted_index.max(oldest_known);
+        if index >= last_applied.index {
+            return last_applied;
+        }
+        let term = starts
+            .iter()
+            .rev()
+            .find(|(first, _)| *first <= index)
+            .map(|(_, term)| *term)
+            .unwrap_or(last_applied.term);
+        LogId { index, term }
     }
 
     /// Convenience constructor for tests without watch
